@@ -14,6 +14,12 @@ import time
 import numpy as np
 
 VERIF_ROOT = os.path.dirname(os.path.dirname(os.path.dirname(os.path.abspath(__file__))))
+
+
+def out_root():
+  """Where evidence/ and replays/ are written. MANIFEST commands never set VT_OUT (=> /verif);
+  the mutation / seeded-change drivers point it at a scratch directory."""
+  return os.environ.get("VT_OUT") or VERIF_ROOT
 MAX_CLASSES = 20
 
 
@@ -211,7 +217,7 @@ def finish(ctx, module, repo_root):
   """Writes replays + evidence, prints verdict lines, returns exit code."""
   findings = load_findings(ctx.pid)
   rev = repo_rev(repo_root)
-  replay_dir = os.path.join(VERIF_ROOT, "replays", ctx.pid)
+  replay_dir = os.path.join(out_root(), "replays", ctx.pid)
   new, known_hits = [], collections.Counter()
   for v in ctx.violations.values():
     hit = None
@@ -278,7 +284,7 @@ def finish(ctx, module, repo_root):
   ev = dict(property_id=ctx.pid, tier=ctx.tier, seed=int(ctx.seed),
             level=ctx.level, coverage=cov, assumptions=ctx.assumptions,
             wall_s=round(wall, 2), violations=len(new))
-  epath = os.path.join(VERIF_ROOT, "evidence", "%s.json" % ctx.pid)
+  epath = os.path.join(out_root(), "evidence", "%s.json" % ctx.pid)
   os.makedirs(os.path.dirname(epath), exist_ok=True)
   with open(epath, "w") as fh:
     json.dump(jsonable(ev), fh, indent=1)
